@@ -282,12 +282,16 @@ func runConn(c *mon.Case, r *mon.Run, dir string, p params) {
 			}
 		}
 	}
+	// readers that poll: a read deadline before every Read, an expired deadline
+	// means "nothing yet" (from the start on every fifth connection, from the
+	// end of the scripted traffic on every third)
+	poll := &mon.Poller{Interval: time.Duration(20+rng.IntN(60)) * time.Millisecond}
 	reader := func(conn net.Conn, st mon.Stream, ds *dirStats, bufSeed uint64) {
 		brng := mon.NewRand(bufSeed)
 		var off int64
 		for {
 			buf := make([]byte, 1+brng.IntN(20000))
-			n, err := conn.Read(buf)
+			n, err := poll.Read(conn, buf)
 			mu.Lock()
 			if n > 0 {
 				if i := st.Check(buf[:n], off); i >= 0 && ds.mismatch < 0 {
@@ -389,6 +393,11 @@ func runConn(c *mon.Case, r *mon.Run, dir string, p params) {
 		finish()
 		return
 	}
+	if p.seed%5 == 1 {
+		poll.Start()
+		r.Count("connections_read_by_polling_from_the_start", 1)
+	}
+	defer func() { r.Count("read_deadlines_expired_and_renewed", poll.Timeouts()) }()
 	wg.Add(2)
 	c.Go(wg.Done, func() { reader(sc, cStream, &up, p.seed^0x71) })
 	c.Go(wg.Done, func() { reader(cc, sStream, &down, p.seed^0x72) })
@@ -440,7 +449,38 @@ func runConn(c *mon.Case, r *mon.Run, dir string, p params) {
 		c.Go(writers.Done, func() { writer(cc, c2s, cStream, cScript, cGaps, &up) })
 		writers.Wait()
 		synctest.Wait() // every goroutine is durably blocked: nothing more will happen without new traffic
-		if judge("end") {
+		ok := judge("end")
+		if ok && (p.seed%3 == 0 || poll.On()) {
+			// polling phase: the readers go on by polling, and bursts arrive in two
+			// parts with a pause between them that outlasts several deadlines — the
+			// first part ends anywhere, inside a frame header included
+			poll.Start(sc, cc)
+			synctest.Wait()
+			for round := 0; round < 4 && ok; round++ {
+				wconn, st, ds, half := cc, cStream, &up, c2s
+				if (int(p.seed>>3)+round)&1 != 0 {
+					wconn, st, ds, half = sc, sStream, &down, s2c
+				}
+				t0 := poll.Timeouts()
+				half.SetCut(half.Written()+int64(1+rng.IntN(60)), memwire.CutSilence)
+				var w sync.WaitGroup
+				w.Add(1)
+				sz := 1 + rng.IntN(2500)
+				c.Go(w.Done, func() { writeOne(wconn, half, st, sz, ds) })
+				time.Sleep(time.Duration(150+rng.IntN(400)) * time.Millisecond)
+				half.SetCut(-1, memwire.CutSilence)
+				w.Wait()
+				synctest.Wait()
+				if poll.Timeouts() > t0 {
+					r.Count("bursts_delivered_across_expired_read_deadlines", 1)
+				}
+				ok = judge("polling-reader")
+			}
+			if ok {
+				r.Count("polling_phases_verified", 1)
+			}
+		}
+		if ok {
 			// closing phase: one side writes a last piece and its connection ends (a
 			// half-close on the wire) while that piece is still in flight, so that
 			// the reader's last network read brings the end of the stream right
